@@ -1,4 +1,5 @@
 import Drv.Exec
+import Drv.PureGen
 /-! Seeded generators of operation histories. Every random choice derives from one PRNG state. The reference `R`
     is stepped alongside so that proposals can be filtered by the (proved-equivalent) validity predicate `okStepB`
     and aimed at the limits. -/
@@ -251,6 +252,9 @@ def genCycles (rng : Rng) (k cycles : Nat) : Rng × Array String :=
   (s.rng, s.lines)
 
 def genProfile (profile : String) (seed : Nat) (count len : Nat) : Array String := Id.run do
+  if profile = "hex15" then return genHex15 seed len count
+  if profile = "concat16" then return genConcat16 seed len
+  if profile = "label17" then return genLabel17 seed len count
   let mut rng : Rng := ⟨UInt64.ofNat (seed * 1000003 + profile.hash.toNat % 1000003)⟩
   let mut out : Array String := #[]
   for i in [0:count] do
